@@ -85,7 +85,7 @@ CHECKS = {
    note='Trusted: Coq kernel; R axioms; K-matrix of C03.',
    design='5/C02'),
  'C06': dict(
-   technique='Coq proof over a relational block Gauss-Seidel specification (induction over the block list: fixed point, zero residual on the last colour, Dirichlet data; colour independence of radial lines from the columns of A) + exact-rational K-affine correspondence of both real smoothers with per-block certification',
+   technique='Coq proof that the A_sc_ortho kernels of the take smoother regenerated from the source (translator T3) compute the right-hand side of the block update of the model, and over a relational block Gauss-Seidel specification (induction over the block list: fixed point, zero residual on the last colour, Dirichlet data; colour independence of radial lines from the columns of A) + exact-rational K-affine correspondence of both real smoothers with per-block certification',
    text='For any operator with local rows, any block list, grid and data: a sweep fixes the exact solution (given unique line systems), leaves zero '
         'residual on every block of the colour updated last when same-colour blocks are independent, and gives Dirichlet nodes the data; for A '
         'the white radial lines are proved independent for every ntheta = 2Mc >= 4. SmootherGive and SmootherTake are compared sweep by sweep '
